@@ -1,6 +1,6 @@
 """C13 - slerp / mix / lerp interpolate rotations at constant angular speed along the right arc (ext/quaternion_common.inl, gtx/quaternion.inl, gtx/dual_quaternion.inl)."""
 from props.common import *
-import math, struct
+import math, struct, json
 from fractions import Fraction
 import realtrig
 from irsym import Exec
@@ -20,7 +20,7 @@ OUTSIDE = ("size of rounding errors (e.g. |norm-1| after rounding, behaviour at 
            "in IEEE arithmetic a dot product rounded below -1 makes acos return NaN); fastMix of antipodal inputs at a = 1/2 (blend is zero: normalize returns the identity quaternion); "
            "squad away from its end points; gtx intermediate (quaternion exp/log: no model of exp/log); sin(acos(c)) > 0 for the libm functions in IEEE arithmetic (only the acos-domain part of the no-NaN claim is decided); "
            "with spin count k the linear-fallback branch (<x,+-y> > 1-eps, axis of rotation ill-defined) ignores k: only end points and the affine shape are claimed there; "
-           "symmetry of the spin variant up to the sign (-1)^k is attempted as optional")
+           "")
 ASSUMPTIONS = ['float/double literals that are the correctly rounded value of k*pi denote k*pi in the rounding-erased semantics',
                'libm sin/cos/acos/atan2 are the mathematical functions in the rounding-erased semantics; uninterpreted (same argument, same result) in the bit-precise obligations',
                'lerp bit-exactness: IEEE addition and multiplication are commutative (operands are sorted before the compiled term and the transcribed formula are compared)']
@@ -141,7 +141,7 @@ def chk(S, unit_, fn, spec, pre=None, setup=None, split_side=False, witness_at=N
                     bounds=kw.get('bounds', ''), replay=lambda m: ('no-replay', {}))
     return res
 
-def chk_rw(S, fn, ins, pre, spec, inner, *, name=None, known=(), bounds='', mandatory=True, solver='nra', witness_at=None):
+def chk_rw(S, fn, ins, pre, spec, inner, *, name=None, known=(), bounds='', mandatory=True, solver='nra', inner_solver=None, witness_at=None):
     """Nested calls that are out of reach monolithically.  Chain: (1) each inner call (fn2, ins2, want2, tag), executed on the same executor (same sqrt/trig tables), returns want2 - proved;
     (2) the (simplified) inner result terms are rewritten to those values inside the outer function's outputs, axioms and side conditions (sound: (1) holds under the same hypotheses; if the
     terms do not occur the rewrite is a no-op and the query is merely hard) and what remains is decided; side conditions one by one."""
@@ -150,7 +150,7 @@ def chk_rw(S, fn, ins, pre, spec, inner, *, name=None, known=(), bounds='', mand
     for f2, ins2, want2, tag in inner:
         rr = sym_call(U, f2, ins=ins2, mode='real', ex=ex)
         for j, wv in enumerate(want2):
-            S.prove('%s.inner %s[%d]' % (name, tag, j), rr.outs[0][j].r == wv, list(pre) + rr.axioms, timeout=to, solver=solver, kind='spec', functions=fl, bounds=bounds, mandatory=mandatory)
+            S.prove('%s.inner %s[%d]' % (name, tag, j), rr.outs[0][j].r == wv, list(pre) + rr.axioms, timeout=to, solver=inner_solver or solver, kind='spec', functions=fl, bounds=bounds, mandatory=mandatory)
             sub.append((z3.simplify(rr.outs[0][j].r), wv))
     n_inner = len(ex.obligations)
     r = sym_call(U, fn, ins=ins, mode='real', ex=ex)
@@ -237,6 +237,7 @@ def job_slerp(t, fn='slerp', kind='slerp', k=None):
     return run
 
 def job_symmetry(t, fn='slerp', k=None):
+    w = 32 if t == 'f32' else 64; odd = k is not None and k % 2 != 0
     def run(S):
         name = fn + '_' + t
         ex = mkex(U, 'real', 16)
@@ -244,14 +245,44 @@ def job_symmetry(t, fn='slerp', k=None):
         r2 = sym_call(U, name, ins=[y, x, [1 - tt]], mode='real', ex=ex)
         c0 = dot(x, y); flip = c0 < 0
         fb = z3.If(flip, -c0, c0) > 1 - EPS[t]
+        def mk_replay(j, oname, goal):
+            def replay(m):
+                v, info = replay1(m)
+                if v == 'reproduced': return v, info
+                # the first model is often degenerate (zero quaternions, inconsistent Ackermannised angles): ask for a counterexample among unit quaternions in general position
+                nice = [unit(x), unit(y), tt > z3.RealVal('1/10'), tt < z3.RealVal('9/10'), c0 * c0 > z3.RealVal('1/100'), c0 * c0 < z3.RealVal('81/100')]
+                r_, m2, _, _ = S.query(nice + r1.axioms + [z3.Not(goal)], 30, 'z3')
+                if r_ == 'sat':
+                    v2, info2 = replay1(m2)
+                    if v2 == 'reproduced': return v2, info2
+                return v, info
+            def replay1(m):       # native: slerp(x,y,t) against slerp(y,x,1-t) on the nearest floats
+                vals = S._model_inputs(m, r1); fl = [[float(v) for v in row] for row in vals]
+                bits = [[float_to_bits(v, w) for v in row] for row in fl]
+                xs, ys = [bits_to_float(b, w) for b in bits[0]], [bits_to_float(b, w) for b in bits[1]]; tv = bits_to_float(bits[2][0], w)
+                n1 = U.call_native(name, bits); n2 = U.call_native(name, [bits[1], bits[0], [float_to_bits(1.0 - tv, w)]])
+                a, b = bits_to_float(n1[0][j], w), bits_to_float(n2[0][j], w); d = sum(p * q for p, q in zip(xs, ys))
+                info = {'unit': U.name, 'fn': name, 'obligation': oname, 'property': S.pid, 'inputs': [[str(v) for v in row] for row in vals], 'native_slerp(x,y,t)': [hex(v) for v in n1[0]],
+                        'native_slerp(y,x,1-t)': [hex(v) for v in n2[0]], 'pin_name': oname}
+                if a != a or b != b or abs(a) == float('inf') or abs(b) == float('inf'): return 'not-reproduced', info
+                if odd and abs(d) > 1 - float(Fraction(str(EPS[t]))): return 'not-reproduced', info
+                sg = (-1.0 if d < 0 else 1.0) * (-1.0 if odd else 1.0); tol = 2e-3 if w == 32 else 1e-6
+                return ('reproduced' if abs(a - sg * b) > tol * max(1.0, abs(a), abs(b)) else 'not-reproduced'), info
+            return replay
         for j in range(4):
             a, b = r1.outs[0][j].r, r2.outs[0][j].r
-            if k is None or k % 2 == 0:
-                S.prove('c13.%s.symmetry[%d]: slerp(x,y,t) == sign(<x,y>) slerp(y,x,1-t)' % (name, j), a == z3.If(flip, -b, b), r1.axioms, timeout=S.cap(40, 120), solver='nra', kind='spec',
-                        mandatory=k is None, functions=['w_' + name + ' (two executions sharing the trig table)'], bounds='all real quaternions x, y (either sign of <x,y>, both branches); every real t')
+            if not odd:
+                oname = 'c13.%s.symmetry[%d]: slerp(x,y,t) == sign(<x,y>) slerp(y,x,1-t)' % (name, j); goal = a == z3.If(flip, -b, b)
+                S.prove(oname, goal, r1.axioms, timeout=S.cap(40, 120), solver='nra', kind='spec', replay=mk_replay(j, oname, goal),
+                        mandatory=True, functions=['w_' + name + ' (two executions sharing the trig table)'], bounds='all real quaternions x, y (either sign of <x,y>, both branches); every real t')
             else:
-                S.prove('c13.%s.symmetry[%d]: slerp(x,y,t,k) == -sign(<x,y>) slerp(y,x,1-t,k) (arc branch, k odd)' % (name, j), z3.Implies(z3.Not(fb), a == z3.If(flip, b, -b)), r1.axioms, timeout=S.cap(40, 120),
-                        solver='nra', kind='spec', mandatory=False, functions=['w_' + name + ' (two executions sharing the trig table)'], bounds='all real quaternions x, y; every real t')
+                oname = 'c13.%s.symmetry[%d]: slerp(x,y,t,k) == -sign(<x,y>) slerp(y,x,1-t,k) (arc branch, k odd)' % (name, j)
+                goal = z3.Implies(z3.Not(fb), a == z3.If(flip, b, -b))
+                S.prove(oname, goal, r1.axioms, timeout=S.cap(40, 120), replay=mk_replay(j, oname, goal),
+                        solver='nra', kind='spec', mandatory=True, functions=['w_' + name + ' (two executions sharing the trig table)'], bounds='all real quaternions x, y; every real t')
+                oname = 'c13.%s.symmetry.fallback[%d]: slerp(x,y,t,k) == sign(<x,y>) slerp(y,x,1-t,k) (linear branch)' % (name, j); goal = z3.Implies(fb, a == z3.If(flip, -b, b))
+                S.prove(oname, goal, r1.axioms, timeout=S.cap(40, 120), replay=lambda m: ('no-replay', {}),
+                        solver='nra', kind='spec', mandatory=True, functions=['w_' + name + ' (two executions sharing the trig table)'], bounds='all real quaternions x, y; every real t')
     return run
 
 def job_lemmas(S):
@@ -314,9 +345,17 @@ def job_lerp(t):
         rng = [z3.fpGEQ(a, FPV(0.0, w)), z3.fpLEQ(a, one)]
         fl = ['w_' + name]
         S.prove('c13.%s.witness' % name, z3.BoolVal(False), rng, timeout=S.cap(20, 60), kind='witness', expect='sat', mandatory=False, functions=fl)
-        for j in range(4):
-            want = z3.fpAdd(RNE, z3.fpMul(RNE, fpof(i[0][j]), om), z3.fpMul(RNE, fpof(i[1][j]), a))
-            S.prove('c13.%s.lerp[%d] == x*(1-a) + y*a (IEEE)' % (name, j), canon_fp(o[0][j].fp, memo) == canon_fp(want, memo), rng, timeout=S.cap(30, 90), kind='spec', functions=fl,
+        try:
+            ncmp, bad = validate_translation(res, S.rnd, 4 if S.quick else 12, pre=z3.And(*rng)); S.validated += ncmp
+            if bad: S.engine_errors.append('c13.%s: symbolic term disagrees with native execution: %s' % (name, json.dumps(bad[0])))
+        except Exception as e:
+            S.rec(name='c13.%s.validate' % name, kind='validate', result='error', status='skipped', note=str(e)[:300], mandatory=False)
+        def spec_fp(i_, o_):
+            a_ = fpof(i_[2][0]); om_ = z3.fpSub(RNE, one, a_); mm = {}
+            return [('lerp[%d] == x*(1-a) + y*a (IEEE)' % j, canon_fp(fpv_of(o_[0][j]), mm) == canon_fp(z3.fpAdd(RNE, z3.fpMul(RNE, fpof(i_[0][j]), om_), z3.fpMul(RNE, fpof(i_[1][j]), a_)), mm)) for j in range(4)]
+        for label, g in spec_fp(i, o):
+            oname = 'c13.%s.%s' % (name, label)
+            S.prove(oname, g, rng, timeout=S.cap(30, 90), kind='spec', functions=fl, replay=S._replayer(res, (spec_fp, label), None, U, name, 'fp', oname), vars_=[v for row in i for v in row],
                     bounds='all bit patterns of x, y; 0 <= a <= 1 (the asserted range); result bit-identical (one NaN) to the documented expression')
         traps = [cnd for kind_, cnd, d in res.obligations if kind_ in ('trap', 'unreachable')]
         S.prove('c13.%s.trap-free on 0<=a<=1' % name, z3.Not(z3.Or(*traps)) if traps else z3.BoolVal(True), rng, timeout=S.cap(20, 60), kind='trap', functions=fl, bounds='all bit patterns of x, y; 0 <= a <= 1')
@@ -403,7 +442,7 @@ def job_squad(t):
     return run
 
 KF_INT, KF_EXP = 'KF-C13-intermediate-zero', 'KF-C13-quat-exp-zero-angle'
-REGIONS = {'all': lambda res, i: z3.BoolVal(True),
+REGIONS = {'all': lambda res, i: norm2(res.ins[0]) >= 0,        # (every input; written over the inputs because the 'nra' front end drops variable-free hypotheses)
            'exp_small': lambda res, i: norm2(res.ins[0][1:]) < EPS[res.fn.name[-3:]] * EPS[res.fn.name[-3:]]}
 def job_intermediate(t):
     """gtx intermediate (squad control point) and the quaternion exponential it is built on.  When the three key frames coincide - more generally when prev = d^-1 curr and next = d curr are
@@ -414,10 +453,10 @@ def job_intermediate(t):
     def run(S):
         q = [z3.Real('a%d' % j) for j in range(4)]; d = [z3.Real('b%d' % j) for j in range(4)]; I4 = [ONE, ZERO, ZERO, ZERO]
         chk_rw(S, 'intermediate_' + t, [q], [norm2(q) > 0], lambda i, o, T: [('intermediate(q,q,q)[%d]==q' % j, REq(rv(o[0][j]), i[0][j])) for j in range(4)],
-               [('qqinv_' + t, [q], I4, 'q*inverse(q)==1')], known=[KF_INT], witness_at=[[1, 0, 0, 0]], bounds='all non-zero q; log/exp of real numbers uninterpreted')
+               [('qqinv_' + t, [q], I4, 'q*inverse(q)==1')], known=[KF_INT], inner_solver='qfnra', witness_at=[[1, 0, 0, 0]], bounds='all non-zero q; log/exp of real numbers uninterpreted')
         dc = [d[0], -d[1], -d[2], -d[3]]
-        chk_rw(S, 'intermediate3_' + t, [q, d], [norm2(q) > 0, unit(d), d[0] > 0], lambda i, o, T: [('intermediate(d^-1 q,q,d q)[%d]==q' % j, REq(rv(o[0][j]), i[0][j])) for j in range(4)],
-               [('dqqinv_' + t, [q, d], d + dc, '(d q) q^-1 == d, (d* q) q^-1 == d*')], known=[KF_INT], witness_at=[[1, 0, 0, 0], [1, 0, 0, 0]], mandatory=False,
+        if not S.quick: chk_rw(S, 'intermediate3_' + t, [q, d], [norm2(q) > 0, unit(d), d[0] > 0], lambda i, o, T: [('intermediate(d^-1 q,q,d q)[%d]==q' % j, REq(rv(o[0][j]), i[0][j])) for j in range(4)],
+               [('dqqinv_' + t, [q, d], d + dc, '(d q) q^-1 == d, (d* q) q^-1 == d*')], known=[KF_INT], inner_solver='qfnra', witness_at=[[1, 0, 0, 0], [1, 0, 0, 0]], mandatory=False,
                bounds='all non-zero q, unit d with d.w > 0 (key frames equally spaced on a geodesic, less than pi apart)')
         def spec_e(i, o, T):
             q = i[0]; v = q[1:]; X = norm2(v); A = T.sqrt(0, X); out = [rv(x) for x in o[0]]; big = z3.Not(A < eps); small = A < eps
@@ -462,9 +501,10 @@ def job_acos_domain(t, fns):
             thr = z3.fpSub(RNE, FPV(1.0, w), FPV(epsf, w))
             fl = ['w_' + name]; bd = 'every IEEE sum/product in the argument and the path condition abstracted to an arbitrary non-NaN float (covers all finite inputs whose dot product is not NaN)'
             S.prove('c13.%s.fp.witness' % name, z3.BoolVal(False), hy, timeout=S.cap(20, 60), kind='witness', expect='sat', mandatory=False, functions=fl)
-            S.prove('c13.%s.fp.acos-arg<=1-eps' % name, z3.fpLEQ(arg_a, thr), hy, timeout=S.cap(30, 90), kind='spec', functions=fl, bounds=bd)
-            S.prove('c13.%s.fp.acos-arg>=0' % name, z3.fpGEQ(arg_a, FPV(0.0, w)), hy, timeout=S.cap(30, 90), kind='spec', functions=fl, bounds=bd)
-            S.prove('c13.%s.fp.acos-arg-not-NaN' % name, z3.Not(z3.fpIsNaN(arg_a)), hy, timeout=S.cap(30, 90), kind='spec', functions=fl, bounds=bd)
+            norep = lambda m: ('not-reproduced', {'note': 'counterexample of the abstraction (arbitrary floats for the sums/products); the argument of acos is not observable natively'})
+            S.prove('c13.%s.fp.acos-arg<=1-eps' % name, z3.fpLEQ(arg_a, thr), hy, timeout=S.cap(30, 90), kind='spec', functions=fl, bounds=bd, replay=norep)
+            S.prove('c13.%s.fp.acos-arg>=0' % name, z3.fpGEQ(arg_a, FPV(0.0, w)), hy, timeout=S.cap(30, 90), kind='spec', functions=fl, bounds=bd, replay=norep)
+            S.prove('c13.%s.fp.acos-arg-not-NaN' % name, z3.Not(z3.fpIsNaN(arg_a)), hy, timeout=S.cap(30, 90), kind='spec', functions=fl, bounds=bd, replay=norep)
             # twin: the bound is attained (arg == 1-eps is reachable on the acos branch)
             S.prove('c13.%s.fp.twin(arg<1-eps)' % name, z3.fpLT(arg_a, thr), hy, timeout=S.cap(20, 60), kind='mutant-twin', expect='sat', mandatory=False, functions=fl)
     return run
@@ -474,7 +514,7 @@ def jobs(tier):
     for t in FT:
         J += [('slerp_' + t, job_slerp(t)), ('mix_' + t, job_slerp(t, 'mix', kind='mix')), ('symmetry_' + t, job_symmetry(t)), ('lerp_' + t, job_lerp(t)), ('dqlerp_' + t, job_dqlerp(t)),
               ('shortmix_' + t, job_shortmix(t)), ('fastmix_' + t, job_fastmix(t)), ('squad_' + t, job_squad(t)), ('intermediate_' + t, job_intermediate(t)),
-              ('acosdomain_' + t, job_acos_domain(t, ['slerp'] + [kname(k) for k in ((-1, 2) if q else SPINS)]))]
+              ('acosdomain_' + t, job_acos_domain(t, ['slerp'] + [kname(k) for k in SPINS]))]
         for k in SPINS: J.append(('%s_%s' % (kname(k), t), job_slerp(t, kname(k), k=k)))
-        for k in ((-1, 2) if q else SPINS): J.append(('symmetry_%s_%s' % (kname(k), t), job_symmetry(t, kname(k), k)))
+        for k in SPINS: J.append(('symmetry_%s_%s' % (kname(k), t), job_symmetry(t, kname(k), k)))
     return J
